@@ -367,13 +367,27 @@ Definition try_infer_version (fs : list fragment) : outcome (option fver) :=
 
 Definition sub_1e9 : N := 1000000000.
 
+(* timestamp_nanos (u128) <-> google.protobuf.Timestamp { seconds: i64, nanos: i32 } *)
+Definition ts_to_pb (t : N) : option (Z * Z) :=
+  if t =? 0 then None
+  else let nanos := t mod sub_1e9 in
+       let secs := (t - nanos) / sub_1e9 in
+       (* `as i64` (wrapping), nanos as i32 (always < 10^9) *)
+       let s64 := secs mod two64 in
+       Some (if s64 <? two63 then Z.of_N s64 else (Z.of_N s64 - Z.of_N two64)%Z, Z.of_N nanos).
+Definition z_as_u128 (z : Z) : N := Z.to_N (z mod Z.of_N two128)%Z.
+Definition ts_of_pb (p : option (Z * Z)) : outcome N :=
+  match p with
+  | None => Ok 0                                                       (* unwrap_or(0) *)
+  | Some (secs, nanos) =>
+      let sec := z_as_u128 secs * sub_1e9 in
+      if two128 <=? sec then Panic                                     (* u128 multiply overflow *)
+      else let n := z_as_u128 nanos in
+           if two128 <=? sec + n then Panic else Ok (sec + n)
+  end.
+
 Definition mf_to_pb (m : manifest) : pb_manifest :=
-  let ts := if mf_timestamp_nanos m =? 0 then None
-            else let nanos := mf_timestamp_nanos m mod sub_1e9 in
-                 let secs := (mf_timestamp_nanos m - nanos) / sub_1e9 in
-                 (* `as i64` (wrapping), nanos as i32 (always < 10^9) *)
-                 let s64 := secs mod two64 in
-                 Some (if s64 <? two63 then Z.of_N s64 else (Z.of_N s64 - Z.of_N two64)%Z, Z.of_N nanos) in
+  let ts := ts_to_pb (mf_timestamp_nanos m) in
   mk_pmf (sc_fields (mf_schema m)) (sc_meta (mf_schema m)) (map frag_to_pb (mf_fragments m)) (mf_version m)
          (mf_version_aux_data m) (mf_writer_version m) (mf_index_section m) ts
          (match mf_tag m with Some t => t | None => [] end) (mf_reader_flags m) (mf_writer_flags m)
@@ -381,17 +395,8 @@ Definition mf_to_pb (m : manifest) : pb_manifest :=
          (mf_transaction_section m) (mf_next_row_id m) (Some (mf_data_format m)) (mf_config m)
          (mf_table_metadata m) (map (fun kb => bp_to_pb (snd kb)) (mf_base_paths m)) (mf_branch m).
 
-Definition z_as_u128 (z : Z) : N := Z.to_N (z mod Z.of_N two128)%Z.
-
 Definition mf_of_pb (p : pb_manifest) : outcome manifest :=
-  obind (match pmf_timestamp p with
-         | None => Ok 0
-         | Some (secs, nanos) =>
-             let sec := z_as_u128 secs * sub_1e9 in
-             if two128 <=? sec then Panic                                 (* u128 multiply overflow *)
-             else let n := z_as_u128 nanos in
-                  if two128 <=? sec + n then Panic else Ok (sec + n)
-         end) (fun ts =>
+  obind (ts_of_pb (pmf_timestamp p)) (fun ts =>
   obind (omap frag_of_pb (pmf_fragments p)) (fun fragments =>
   obind (compute_fragment_offsets fragments) (fun offsets =>
   if negb (N.land FLAG_STABLE_ROW_IDS (pmf_reader_flags p) =? 0)
@@ -494,6 +499,11 @@ Definition translate_schema_metadata_updates (md : kv) : update_map :=
   mk_um (map (fun e => (fst e, Some (snd e))) md) true.
 Definition u32_as_i32 (n : N) : Z := if n <? two31 then Z.of_N n else (Z.of_N n - 4294967296)%Z.
 
+(* a HashMap<i32, _> is carried sorted by key: re-sort after the (bijective) u32 -> i32 cast *)
+Fixpoint zk_insert {A} (x : Z * A) (l : list (Z * A)) : list (Z * A) :=
+  match l with [] => [x] | y :: r => if (fst x <=? fst y)%Z then x :: l else y :: zk_insert x r end.
+Definition zk_sort {A} (l : list (Z * A)) : list (Z * A) := fold_right zk_insert [] l.
+
 Definition is_nil {A} (l : list A) : bool := match l with [] => true | _ => false end.
 Definition is_some {A} (o : option A) : bool := match o with Some _ => true | None => false end.
 
@@ -570,7 +580,7 @@ Section TxnCodec.
                 (if negb (is_nil up) || negb (is_nil dk) then Some (translate_config_updates up dk) else None)
                 None
                 (if negb (is_nil osm) then Some (translate_schema_metadata_updates osm) else None)
-                (map (fun e => (u32_as_i32 (fst e), translate_schema_metadata_updates (snd e))) ofm))
+                (zk_sort (map (fun e => (u32_as_i32 (fst e), translate_schema_metadata_updates (snd e))) ofm)))
         else
           Ok (OpUpdateConfig (option_map um_of_pb c) (option_map um_of_pb t) (option_map um_of_pb s)
                              (map (fun e => (fst e, um_of_pb (snd e))) f))
@@ -782,6 +792,27 @@ Definition Known_C32_default_conflated_manifest (m : manifest) : bool :=
   existsb dc_frag (mf_fragments m)
   || match mf_tag m with Some [] => true | _ => false end
   || match mf_transaction_file m with Some [] => true | _ => false end.
+
+(* Typing / struct invariants alone (no statement about the lossy classes): 16-byte uuids, created_at
+   inside chrono's range; for a manifest: the private offsets are the computed ones, the timestamp's
+   seconds fit an i64, the stable-row-id flag implies row ids everywhere, map keys are the ids. *)
+Definition idx_typed (i : index_meta) : bool :=
+  wf_uuid (ix_uuid i) && match ix_created_at i with Some t => created_at_ok t | None => true end.
+Definition txn_typed (t : transaction) : bool :=
+  match tx_operation t with
+  | OpCreateIndex n r => forallb idx_typed n && forallb idx_typed r
+  | OpRewrite _ ri _ => forallb wf_ri ri
+  | _ => true
+  end.
+Definition manifest_invariants (m : manifest) : bool :=
+  match compute_fragment_offsets (mf_fragments m) with
+  | Ok o => list_eqb N.eqb o (mf_fragment_offsets m)
+  | _ => false
+  end
+  && (mf_timestamp_nanos m <? ts_bound)
+  && ((N.land FLAG_STABLE_ROW_IDS (mf_reader_flags m) =? 0)
+      || forallb (fun f => is_some (fr_row_id_meta f)) (mf_fragments m))
+  && forallb (fun kb => fst kb =? bp_id (snd kb)) (mf_base_paths m).
 
 Definition wf_tag (t : tag_contents) : bool := (tg_version t <? two64) && (tg_manifest_size t <? two64).
 Definition wf_branch (b : branch_contents) : bool :=
